@@ -41,7 +41,9 @@ CONTROLS = {
     "Throttle": [("Throttle.dyn.cfg", {"Bug": '"lifo"'}, "ContractHolds"),
                  ("Throttle.mc.cfg", {"Bug": '"no_decr"'}, "ContractHoldsButD6"),
                  ("Throttle.mc.cfg", {"Bug": '"no_set_on_done"'}, "ContractHoldsButD6"),
-                 ("Throttle.dyn.cfg", {"Bug": '"off_by_one"'}, "ContractHolds")],
+                 ("Throttle.dyn.cfg", {"Bug": '"off_by_one"'}, "ContractHolds"),
+                 ("Throttle.mc5.cfg", {"Bug": '"release_after_callbacks"'}, "ContractHolds"),
+                 ("Throttle.mc4.cfg", {"Bug": '"rotate_on_cancel"'}, "ContractHoldsButD6", "thorough")],
     "Timeout": [("Timeout.mc.cfg", {"Bug": '"deadline_first"'}, "ContractHolds"),
                 ("Timeout.mc.cfg", {"Bug": '"drop_pending"'}, "NoJobLost"),
                 ("Timeout.mc4.cfg", {"Bug": '"early"'}, "ContractHolds"),
